@@ -503,6 +503,36 @@ def run_impl_many(script, payloads, jobs=None, timeout=180):
         return list(ex.map(one, payloads))
 
 
+def failed_save_probe(exc_cls):
+    """A save that RAISES in the middle of its writing (disk full, an unencodable string, Ctrl-C): the report file of the previous
+    save is still there, complete, and no temporary file is left.  Returns a detail string when it is not so."""
+    import tempfile
+    import shutil
+    from lemoncheesecake.reporting.backend import atomic_write
+    d = tempfile.mkdtemp(prefix="lccverif_failsave_")
+    try:
+        path = os.path.join(d, "report.js")
+        with atomic_write(path) as fh:
+            fh.write("FIRST SAVE, COMPLETE")
+        try:
+            with atomic_write(path) as fh:
+                fh.write("second save, par")
+                raise exc_cls("fault in the middle of the second save")
+        except exc_cls:
+            pass
+        else:
+            return "the exception raised inside the save was swallowed"
+        got = open(path).read() if os.path.exists(path) else None
+        left = sorted(os.listdir(d))
+        if got != "FIRST SAVE, COMPLETE":
+            return "after a save that raised %s the report file holds %r instead of the previous complete save" % (exc_cls.__name__, got)
+        if left != ["report.js"]:
+            return "after a save that raised %s the directory holds %s" % (exc_cls.__name__, left)
+        return None
+    finally:
+        shutil.rmtree(d, ignore_errors=True)
+
+
 def gen_run_cases(run, n):
     cases = []
     for i in range(n):
@@ -615,6 +645,17 @@ def check(run):
                              "theories/Model/CrashFS.vo", "theories/Model/Writer.vo", "theories/Model/StreamOk.vo",
                              "theories/gen/TablesSaving.vo"])
     quick = run.tier == "quick"
+    # ------------------------------------------------------------------ a save that raises half-way
+    for exc_cls in (RuntimeError, UnicodeError, MemoryError, KeyboardInterrupt):
+        run.evaluations += 1
+        run.count("failed_save_probes")
+        try:
+            detail = failed_save_probe(exc_cls)
+        except BaseException as e:      # noqa: BLE001
+            detail = None
+            run.tie_broken("the failed-save probe could be run (reporting.backend.atomic_write)", detail="%s: %s" % (type(e).__name__, e))
+        if detail:
+            run.violation("failed-save-destroys-previous-file", detail, {"kind": "failed-save", "exception": exc_cls.__name__})
     # ------------------------------------------------------------------ (0) several file backends under one saving strategy
     # each report file is refreshed at the promised points whatever the other backends do: with a clock that only depends on the
     # number of events handled, the refresh points of a backend running together with others equal those it has when it runs alone
